@@ -151,10 +151,18 @@ func genCrashScript(t *vt.T, s *Scenario) *crashScript {
 	// a new version of a chained file arrives after the first one (which is
 	// then typically held, validated, for its predecessor)
 	cs.multi = map[string]bool{}
-	if n > 1 && t.Weighted("newVersion", 2, 1) == 1 {
-		i := 1 + t.Pick("newVersionOf", n-1)
+	nv := t.Weighted("newVersion", 2, 1, 1)
+	if (n > 1 && nv == 1) || nv == 2 {
+		i := 0
+		if nv == 1 {
+			i = 1 + t.Pick("newVersionOf", n-1)
+		} else {
+			// ... or of a file without predecessor: the first version is delivered (and logged)
+			// before the new one arrives
+			i = t.Pick("newVersionOfDelivered", n)
+		}
 		old := cs.files[i]
-		if old.Prev != "" {
+		if (nv == 1 && old.Prev != "") || (nv == 2 && old.Prev == "") {
 			v2 := &Version{Name: old.Name, Prev: old.Prev, Renamed: old.Renamed, Data: s.newContent(s.psize*t.IntRange("v2parts", 1, 3) + 1), Time: old.Time.Add(time.Hour)}
 			cs.older = append(cs.older, old)
 			cs.files[i] = v2
@@ -187,7 +195,11 @@ func genCrashScript(t *vt.T, s *Scenario) *crashScript {
 			for i := range cs.polls {
 				cs.polls[i] = -1
 			}
-			t.Class("new-version-while-held")
+			if nv == 1 {
+				t.Class("new-version-while-held")
+			} else {
+				t.Class("new-version-of-delivered-name")
+			}
 			t.Note("new version of %s size=%d", v2.Name, v2.Size())
 		}
 	}
@@ -344,7 +356,24 @@ func (r *crashRun) checkRecovered(when string) {
 	for _, v := range r.cs.files {
 		if r.cs.multi[v.Name] {
 			// two versions of this name are in play; the status poll answers
-			// by name only, so only the arrival-based clauses are judged
+			// by name only, so only the arrival-based clauses are judged - and
+			// this one, which needs no poll: a version whose every part had been
+			// acknowledged before the crash is still there afterwards (delivered,
+			// held, or staged under its own hash)
+			if w.completed[v.key()] && w.arrivedCount(v) == 0 {
+				staged := false
+				for _, ext := range []string{".wait", ".full", ".part"} {
+					if _, ok := stage[v.Name+ext]; ok {
+						if c := r.s.companion(v.Name); c != nil && c.Hash == v.Hash {
+							staged = true
+						}
+					}
+				}
+				if !staged {
+					w.viol("C06", "complete-copy-of-new-version-lost-by-crash", "%s: every part of %s#%.6s (a new version of a name delivered before) had been acknowledged before the crash; afterwards it is neither delivered nor staged under its hash (stage %v, final %v)",
+						when, v.Name, v.Hash, keysOf(stage), final)
+				}
+			}
 			continue
 		}
 		st := w.Poll(v)
